@@ -81,6 +81,10 @@ func NewSqlite(path string, cfg *SqliteConfig) (*Sqlite, error) {
 	connParams.Add("_pragma", "synchronous(NORMAL)")
 	// Enforce foreign key constraints.
 	connParams.Add("_pragma", "foreign_keys(1)")
+	// The "_pragma" parameters above are only understood by the modernc driver. The driver in use
+	// (mattn/go-sqlite3) ignores them silently; without its own parameter foreign keys are not
+	// enforced and "ON DELETE CASCADE" in the schemas never fires.
+	connParams.Add("_foreign_keys", "1")
 	// Use shared cache for in-memory databases to allow multiple connections.
 	if c.InMemory {
 		registerMemoryDB(noFile)
